@@ -156,13 +156,13 @@ impl NHistory {
                     self.connected.clear();
                 }
                 Some(code @ (101 | 128)) => {
-                    // 128: the token an unsecure client built for itself (index 1000 + k, zero key, user data at position 6)
-                    let tk = v.get(1).and_then(|t| t.as_u64()).map(|k| if code == 128 { 1000 + k } else { k });
+                    // 128: the token an unsecure client built for itself (index at position 2, zero key, user data at position 7)
+                    let tk = v.get(if code == 128 { 2 } else { 1 }).and_then(|t| t.as_u64());
                     if let (Some(k), Some(tok)) = (tk, tk.and_then(|k| self.world.tokens.get(&k))) {
                         let key = if code == 128 { Some(vec![0u8; 32]) } else { v.get(9).and_then(|t| t.as_b()).map(|x| x.to_vec()) };
                         let in_hosts = tok.server_addresses.iter().flatten().any(|a| self.server_addrs.contains(a));
                         let valid = key == self.server_key.clone().or(Some(vec![0u8; 32])) && tok.protocol_id == self.server_protocol && (in_hosts || self.server_key.is_none());
-                        let user = v.get(if code == 128 { 6 } else { 8 }).and_then(|t| t.as_b()).map(|x| x.to_vec()).unwrap_or_default();
+                        let user = v.get(if code == 128 { 7 } else { 8 }).and_then(|t| t.as_b()).map(|x| x.to_vec()).unwrap_or_default();
                         // C17/C04: the two directions of a session and different tokens never share a key
                         let same_dir = tok.client_to_server_key == tok.server_to_client_key;
                         let shared = self.tokens.iter().any(|(k2, t)| *k2 != k && (t.c2s == tok.client_to_server_key || t.s2c == tok.server_to_client_key || t.c2s == tok.server_to_client_key || t.s2c == tok.client_to_server_key));
@@ -646,7 +646,7 @@ impl NHistory {
                 let obs = self.emit(op);
                 // only a client that was really built replaces the old one
                 let built = obs.as_l().and_then(|o| o.first()).and_then(|t| t.as_u64()) == Some(0);
-                if let (true, Some(k), Some(tk)) = (built, u(1), if code == 128 { u(1).map(|k| 1000 + k) } else { u(3) }) {
+                if let (true, Some(k), Some(tk)) = (built, u(1), if code == 128 { u(2) } else { u(3) }) {
                     self.client_token.insert(k, tk);
                     self.out_c.remove(&k);
                     self.delivered_to_client.remove(&k);
